@@ -503,9 +503,13 @@ func checkC18(c *ctx) {
 		}
 		tried := map[uint64]bool{}
 		runNo := 0
+		chanCap := 0
 		var asyncDelay time.Duration = -1 // >= 0: a second goroutine closes the channel after this delay
 		run := func(k uint64, pre bool) string {
 			ch := make(chan struct{})
+			if chanCap > 0 { // a close channel created with a capacity (closing it is what counts, not its queue)
+				ch = make(chan struct{}, chanCap)
+			}
 			cl := &closer{k: k, ch: ch}
 			if pre {
 				close(ch)
@@ -573,10 +577,13 @@ func checkC18(c *ctx) {
 			}
 			return ""
 		}
-		if bad := run(0, true); bad != "" {
-			c.Violation("C18 close channel closed before the call\n"+bad+"\n"+clip(mc.describe()), false)
-			return
+		for _, chanCap = range []int{0, 1, 16} {
+			if bad := run(0, true); bad != "" {
+				c.Violation(fmt.Sprintf("C18 close channel (capacity %d) closed before the call\n%s\n%s", chanCap, bad, clip(mc.describe())), false)
+				return
+			}
 		}
+		chanCap = 0
 		c.Case(fmt.Sprintf("pre-%d", i), true)
 		a := ask(c, sx.L(sx.N(zh.ReqCancel), sx.N(0), sx.Nums(evs)))
 		if len(a.L) != 0 {
@@ -594,6 +601,7 @@ func checkC18(c *ctx) {
 			tried[k] = true
 			c.Case(fmt.Sprintf("close-%d-%d", i, k), true)
 			c.Count("close_points")
+			chanCap = []int{0, 0, 1, 16}[bi%4]
 			if bad := run(k, false); bad != "" {
 				c.Violation(fmt.Sprintf("C18 close channel closed when %d of %d bytes had been written (write boundary %d of %d)\n%s\n%s", k, sum, bi, len(bounds), bad, clip(mc.describe())), false)
 				return
